@@ -10,6 +10,7 @@ import (
 	"sync"
 	"time"
 
+	"github.com/arloliu/go-secs/v2/hsms"
 	"github.com/arloliu/go-secs/v2/secs1"
 	"github.com/arloliu/go-secs/v2/secs2"
 )
@@ -82,6 +83,7 @@ func c20SECS1(c *Ctx, nSync, nAsync, nUnsolicited int) {
 	}()
 	type out struct{ kind, outcome string }
 	outs := make([]out, nSync+nAsync)
+	hist := make([]s1tCall, nSync+nAsync) // the same calls, with stamps, for the replay through the transport model
 	var wg sync.WaitGroup
 	for i := 0; i < nSync+nAsync; i++ {
 		i := i
@@ -91,10 +93,12 @@ func c20SECS1(c *Ctx, nSync, nAsync, nUnsolicited int) {
 			var r rCallResult
 			item := secs2.NewUintItem(4, uint32(i))
 			if i < nSync {
+				hist[i] = s1tCall{Idx: i, Kind: "s", Tag: int64(i), StartSt: rStamp()}
 				reply, err := e.conn.SendDataMessage(context.Background(), 1, byte(1+2*(i%60)), true, item)
 				rClassify(reply, err, &r)
 				outs[i] = out{"s", r.Outcome}
 			} else {
+				hist[i] = s1tCall{Idx: i, Kind: "a", Tag: int64(i), StartSt: rStamp()}
 				err := e.conn.SendDataMessageAsync(context.Background(), 2, 1, false, item)
 				rClassify(nil, err, &r)
 				if r.Outcome == "nilnil" {
@@ -102,6 +106,7 @@ func c20SECS1(c *Ctx, nSync, nAsync, nUnsolicited int) {
 				}
 				outs[i] = out{"a", r.Outcome}
 			}
+			hist[i].Outcome, hist[i].EndSt = r.Outcome, rStamp()
 		}()
 	}
 	fin := make(chan struct{})
@@ -160,10 +165,178 @@ func c20SECS1(c *Ctx, nSync, nAsync, nUnsolicited int) {
 		c.Violate("property", "inflight-not-zero-at-quiescence", fmt.Sprintf("SECS-I: after Close: in-flight %d, reconnecting %d", m2.Inflight, m2.Retry), replay)
 	}
 	_ = g.conn.Close()
+	// correspondence: the recorded history against the Lean model of the transport's generation / hand-off layer
+	select {
+	case <-fin:
+		sv, srep := s1tCheck(c, e.rec, hist, s1tExpect{M: rReadMetrics(e.conn), Blocks: e.conn.BlockMetrics(), Checked: true})
+		for _, v := range sv {
+			c.Violate("correspondence", v[0], v[1], srep)
+		}
+	default:
+	}
 	c.Count(fmt.Sprintf("secs1-conserve|%d|%d|%d", nSync, nAsync, nUnsolicited), true)
 	c.Stat("scenario:secs1-conserve")
 	if len(c.Res.Samples) < 8 {
 		c.Sample(map[string]any{"scenario": "secs1-conserve", "sync": nSync, "async": nAsync, "unsolicited": nUnsolicited, "timeouts": timeouts,
 			"peer_received": received, "peer_sent_acked": acked, "metrics(sent,recv,inflight,err,drop,asyncErr,retry)": m.String()})
+	}
+}
+
+// c20SECS1Drop: conservation across the END of a generation.  nWait W-bit sends sit in the reply wait (the peer withholds the
+// replies) and nAsync fire-and-forget messages have been written when the peer drops the line; the connection re-establishes the
+// link, one more transaction runs on the new generation, then the connection is closed.  Every waiter must come back with
+// connection-closed, having incremented AND decremented the in-flight gauge exactly once (the teardown branch of the reply wait),
+// the sent counter equals what the peer received intact over both generations, nothing is counted as an error.  The recorded
+// history is replayed through the transport model.
+func c20SECS1Drop(c *Ctx, nWait, nAsync int) {
+	e, err := c09NewS1(0, 5*time.Second)
+	if err != nil {
+		c.Violate("correspondence", "scenario-did-not-start", "secs1 drop: "+err.Error(), nil)
+		return
+	}
+	replay := map[string]any{"family": "secs1-conservation-across-a-generation-end", "waiters": nWait, "async": nAsync}
+	stop := make(chan struct{})
+	var peerWG sync.WaitGroup
+	serve := func(g *c09S1Gen, reply bool) {
+		peerWG.Add(1)
+		go func() {
+			defer peerWG.Done()
+			for {
+				select {
+				case <-stop:
+					return
+				default:
+				}
+				b, ok := g.peer.readByte(5 * time.Millisecond)
+				if !ok || b != 0x05 {
+					continue
+				}
+				w, good := g.peer.grantAndReceive()
+				if !good || len(w) < 13 || !reply {
+					continue
+				}
+				h := w[1:11]
+				if h[2]&0x80 == 0 {
+					continue
+				}
+				rh := secs1.VerifHeader{DeviceID: c09S1Dev, RBit: true, Stream: h[2] & 0x7f, Function: h[3] + 1, SystemBytes: [4]byte{h[6], h[7], h[8], h[9]}}
+				blk := secs1.VerifBlock{Header: secs1.VerifBuildHeader(rh, 1, true), Body: secs2.NewUintItem(4, uint32(rParseTag(w[11:len(w)-2]))).ToBytes()}
+				g.peer.sendWire(secs1.VerifAppendTo(nil, blk))
+			}
+		}()
+	}
+	g0 := e.gen(0)
+	serve(g0, false)
+	n := nWait + nAsync
+	hist := make([]s1tCall, n, n+1)
+	var wg sync.WaitGroup
+	for i := 0; i < n; i++ {
+		i := i
+		wg.Add(1)
+		go func() {
+			defer wg.Done()
+			var r rCallResult
+			item := secs2.NewUintItem(4, uint32(i))
+			if i < nWait {
+				hist[i] = s1tCall{Idx: i, Kind: "s", Tag: int64(i), StartSt: rStamp()}
+				reply, err := e.conn.SendDataMessage(context.Background(), 1, byte(1+2*(i%60)), true, item)
+				rClassify(reply, err, &r)
+			} else {
+				hist[i] = s1tCall{Idx: i, Kind: "a", Tag: int64(i), StartSt: rStamp()}
+				rClassify(nil, e.conn.SendDataMessageAsync(context.Background(), 2, 1, false, item), &r)
+				if r.Outcome == "nilnil" {
+					r.Outcome = "sent"
+				}
+			}
+			hist[i].Outcome, hist[i].EndSt = r.Outcome, rStamp()
+		}()
+	}
+	// every message of the first wave has reached the peer (one block each): the waiters are in their reply wait
+	deadline := time.Now().Add(10 * time.Second)
+	for time.Now().Before(deadline) && len(c09S1Tags(g0.peer)) < n {
+		time.Sleep(time.Millisecond)
+	}
+	time.Sleep(30 * time.Millisecond)
+	if m := rReadMetrics(e.conn); int(m.Inflight) != nWait {
+		c.Violate("property", "inflight-differs-from-waiters", fmt.Sprintf("SECS-I: in-flight gauge = %d with %d W-bit sends awaiting their reply", m.Inflight, nWait), replay)
+	}
+	g0.closed = true
+	e.rec.notePeerClose(0)
+	_ = g0.conn.Close()
+	fin := make(chan struct{})
+	go func() { wg.Wait(); close(fin) }()
+	select {
+	case <-fin:
+	case <-time.After(20 * time.Second):
+		c.Violate("property", "send-never-returned", "SECS-I: a send pending when its generation ended did not return within 20 s", replay)
+		close(stop)
+		_ = e.conn.Close()
+		return
+	}
+	for i := 0; i < nWait; i++ {
+		c.Stat("secs1-outcome:" + hist[i].Outcome)
+		if hist[i].Outcome != "closed" {
+			c.Violate("property", "cut-call-outcome", fmt.Sprintf("SECS-I: call %d was awaiting its reply when the peer dropped the line and returned %s", i, hist[i].Outcome), replay)
+		}
+	}
+	// the link comes back; one transaction on the new generation
+	deadline = time.Now().Add(10 * time.Second)
+	for time.Now().Before(deadline) && (e.numGens() < 2 || e.conn.State() != hsms.SelectedState) {
+		time.Sleep(2 * time.Millisecond)
+	}
+	received := len(c09S1Tags(g0.peer))
+	if g1 := e.gen(1); g1 != nil && e.conn.State() == hsms.SelectedState {
+		serve(g1, true)
+		last := s1tCall{Idx: n, Kind: "s", Tag: int64(n), StartSt: rStamp()}
+		var r rCallResult
+		ctx, cancel := context.WithTimeout(context.Background(), 4*time.Second)
+		reply, err := e.conn.SendDataMessage(ctx, 1, 1, true, secs2.NewUintItem(4, uint32(n)))
+		cancel()
+		rClassify(reply, err, &r)
+		last.Outcome, last.EndSt = r.Outcome, rStamp()
+		hist = append(hist, last)
+		c.Stat("secs1-outcome:" + r.Outcome)
+		if r.Outcome != "reply" {
+			c.Violate("property", "cut-call-outcome", fmt.Sprintf("SECS-I: the transaction on the re-established link returned %s (%s)", r.Outcome, r.Err), replay)
+		}
+		received += len(c09S1Tags(g1.peer))
+	} else {
+		c.Violate("correspondence", "scenario-incomplete", "secs1 drop: the link was not re-established within 10 s", replay)
+	}
+	time.Sleep(50 * time.Millisecond)
+	m := rReadMetrics(e.conn)
+	replay["calls"] = hist
+	replay["metrics(sent,recv,inflight,err,drop,asyncErr,retry)"] = m.String()
+	if m.Inflight != 0 {
+		c.Violate("property", "inflight-not-zero-at-quiescence", fmt.Sprintf("SECS-I: in-flight gauge = %d with no send call running, after %d waiters were released by the end of their generation", m.Inflight, nWait), replay)
+	}
+	if int(m.Sent) != received {
+		c.Violate("property", "sent-counter-differs-from-wire", fmt.Sprintf("SECS-I: DataMsgSendCount = %d but the peer received %d messages intact over both generations", m.Sent, received), replay)
+	}
+	if m.Err != 0 {
+		c.Violate("property", "err-counter-differs-from-outcomes", fmt.Sprintf("SECS-I: DataMsgErrCount = %d although no send timed out or failed (a teardown is not an error)", m.Err), replay)
+	}
+	if m.Retry != 0 {
+		c.Violate("property", "retry-gauge-not-zero-at-quiescence", fmt.Sprintf("SECS-I: reconnecting gauge = %d on the re-established link", m.Retry), replay)
+	}
+	_ = e.conn.Close()
+	close(stop)
+	for i := 0; i < e.numGens(); i++ {
+		_ = e.gen(i).conn.Close()
+	}
+	peerWG.Wait()
+	m2 := rReadMetrics(e.conn)
+	if m2.Inflight != 0 || m2.Retry != 0 {
+		c.Violate("property", "inflight-not-zero-at-quiescence", fmt.Sprintf("SECS-I: after Close: in-flight %d, reconnecting %d", m2.Inflight, m2.Retry), replay)
+	}
+	sv, srep := s1tCheck(c, e.rec, hist, s1tExpect{M: m2, Blocks: e.conn.BlockMetrics(), Checked: true})
+	for _, v := range sv {
+		c.Violate("correspondence", v[0], v[1], srep)
+	}
+	c.Count(fmt.Sprintf("secs1-conserve-drop|%d|%d", nWait, nAsync), true)
+	c.Stat("scenario:secs1-conserve-across-generation-end")
+	if len(c.Res.Samples) < 8 {
+		c.Sample(map[string]any{"scenario": "secs1-conserve-across-generation-end", "waiters": nWait, "async": nAsync, "peer_received": received,
+			"metrics(sent,recv,inflight,err,drop,asyncErr,retry)": m.String()})
 	}
 }
